@@ -27,7 +27,7 @@ func init() {
 	register(&Prop{
 		ID:    "C04",
 		Level: "exploration",
-		Rule: "fixed panel + VERIF_SEED-generated small wordlist recipes (lists of 1-5/8 words, sizes 3 and 5 always present, lengths 1-3/4, the five schemes, constant / preset / constructed / user separators), each explored over its complete decision tree through the real Generate and compared, token sequence by token sequence, with the documented product law (exact rationals); slices through AgileWords, AgileSyllables and seed-built lists of 1000-20000 words (every word index at every position, every position of the one scheme, all 2^L coin patterns). evaluations = executions of Generate; distinct_nontrivial = distinct recipes with at least 2 distinct outputs",
+		Rule:  "fixed panel + VERIF_SEED-generated small wordlist recipes (lists of 1-5/8 words, sizes 3 and 5 always present, lengths 1-3/4, the five schemes, constant / preset / constructed / user separators), each explored over its complete decision tree through the real Generate and compared, token sequence by token sequence, with the documented product law (exact rationals); slices through AgileWords, AgileSyllables and seed-built lists of 1000-20000 words (every word index at every position, every position of the one scheme, all 2^L coin patterns). evaluations = executions of Generate; distinct_nontrivial = distinct recipes with at least 2 distinct outputs",
 		Assumptions: []string{
 			"each bounded draw is uniform (C01)",
 			"premise of the property: lists in which two kept entries share a title-cased form are not judged",
